@@ -30,7 +30,7 @@ def obs_jobs(tier, seed):
     """C17 quantifies over views and owned matrices: the observer family on owners and with every operand a window"""
     q = tier == 'quick'
     return simple_jobs('obs', 1600)(tier, seed) + [
-        TraceJob(SMALL, 'obs', shards=4 if q else 8, args=['--cases', 800 if q else 6000, '--extra', 'views', '--seed', seed + 5], label='obs-views@' + SMALL, timeout=3000),
+        TraceJob(SMALL, 'obs', shards=2 if q else 8, args=['--cases', 400 if q else 6000, '--extra', 'views', '--seed', seed + 5], label='obs-views2@' + SMALL, timeout=3000),
         TraceJob(NOSSE, 'obs', shards=2 if q else 4, args=['--cases', 300 if q else 3000, '--extra', 'mixviews', '--seed', seed + 6], label='obs-mixviews@' + NOSSE, timeout=3000)]
 
 
@@ -73,7 +73,8 @@ def plerec_mc(tier):
 def c01_jobs(tier, seed):
     if tier == 'quick':
         return [TraceJob(SMALL, 'mul', shards=12, args=['--cases', 720]),
-                TraceJob(NOSSE, 'mul', shards=4, args=['--cases', 240])]
+                TraceJob(NOSSE, 'mul', shards=4, args=['--cases', 240]),
+                TraceJob(SMALL, 'mul', shards=4, args=['--cases', 200, '--seed', seed + 9, '--extra', 'views,nosweep'], label='mul-views@' + SMALL)]
     return [TraceJob(SMALL, 'mul', shards=32, timeout=3400), TraceJob(HOST, 'mul', shards=16, args=['--cases', 1500], timeout=3400),
             TraceJob(NOSSE, 'mul', shards=16, args=['--cases', 1500], timeout=3400),
             TraceJob(SMALL, 'mul', shards=32, timeout=3400, args=['--seed', seed + 1000], label='mul@%s#s2' % SMALL),
@@ -87,10 +88,15 @@ def simple_jobs(family, qcases, qshards=12, tshards=32, nosse_frac=3, extra=None
     ex = extra or []
 
     def f(tier, seed):
+        # the same family with every operand a window (a fraction of the cases): what a property says about an operation it says
+        # about the operation on views too; window-specific defects then show in the check of the property they break, not only in C09
+        vw = ['--extra', 'views,nobig,nosweep'] if not ex else [ex[0], ex[1] + ',views,nobig,nosweep']
         if tier == 'quick':
             return [TraceJob(SMALL, family, shards=qshards, args=['--cases', qcases] + ex),
-                    TraceJob(NOSSE, family, shards=max(2, qshards // nosse_frac), args=['--cases', max(40, qcases // nosse_frac)] + ex)]
-        return [TraceJob(SMALL, family, shards=tshards, timeout=3400, args=ex), TraceJob(HOST, family, shards=tshards // 2, timeout=3400, args=ex),
+                    TraceJob(NOSSE, family, shards=max(2, qshards // nosse_frac), args=['--cases', max(40, qcases // nosse_frac)] + ex),
+                    TraceJob(SMALL, family, shards=max(2, qshards // 3), args=['--cases', max(60, qcases // 4), '--seed', seed + 9] + vw, label='%s-views@%s' % (family, SMALL))]
+        return [TraceJob(SMALL, family, shards=tshards // 2, timeout=3400, args=['--seed', seed + 9] + vw, label='%s-views@%s' % (family, SMALL)),
+                TraceJob(SMALL, family, shards=tshards, timeout=3400, args=ex), TraceJob(HOST, family, shards=tshards // 2, timeout=3400, args=ex),
                 TraceJob(NOSSE, family, shards=tshards // 2, timeout=3400, args=ex),
                 # a second and third independent sample of the family's case space in the small-cache build, and one in another cache triple
                 TraceJob(SMALL, family, shards=tshards, timeout=3400, args=ex + ['--seed', seed + 1000], label='%s@%s#s2' % (family, SMALL)),
